@@ -86,6 +86,10 @@ type c07Case struct {
 	// 4 = a negative label, 8 = (CBOR) a label that is neither int nor text;
 	// bits may be combined
 	Extra int `json:"extra_unknown_entries,omitempty"`
+	// EmptyName (JSON): an unknown member whose NAME is the empty string
+	EmptyName string `json:"member_with_empty_name,omitempty"`
+	// Empty: the claims-set with every claim absent ({} / a0)
+	Empty bool `json:"every_claim_absent,omitempty"`
 	// Dup2 (JSON only): a SECOND "eat-profile" member, naming another
 	// registered profile, written after the first one
 	Dup2 string `json:"second_eat_profile_member,omitempty"`
@@ -343,6 +347,9 @@ func (c *c07Case) jsonDoc(withS2 bool) []byte {
 	}
 	if c.Extra&4 != 0 {
 		o.keys, o.vals = append(o.keys, "vendor-profile"), append(o.vals, jArr(jNum("1")))
+	}
+	if c.EmptyName != "" {
+		o.keys, o.vals = append(o.keys, ""), append(o.vals, jRaw(c.EmptyName))
 	}
 	if c.EscVal {
 		for i, v := range o.vals {
@@ -651,6 +658,11 @@ func c07Check(c *c07Case) string {
 	}
 	sel, view := ex.Sel, ex.View
 	valid := view.Valid() && !c.viewBroken(sel)
+	if c.Empty && err != nil {
+		// nothing in it can fail to decode: it is the selected profile's
+		// claims-set with every claim absent (not valid, but decodable)
+		return fmt.Sprintf("the claims-set with every claim absent (no profile claim: profile 1) is refused by the non-validating decoder: %v\n  token: %s", err, show())
+	}
 	if extRuleBroken(c.ExtTS) && (sel.Type == "*checks.ExtP2Claims" || sel.Type == "*checks.ExtP1Claims") {
 		// the selected extension profile's OWN rule (beyond the ten standard
 		// claims): a token is validated under the rules of the profile it declares
@@ -819,6 +831,9 @@ func TestC07_Dispatch(t *testing.T) {
 			}
 		}
 		c.Body = *body
+		if c.Format == "json" && rapid.IntRange(0, 7).Draw(t, "emptyname") == 0 {
+			c.EmptyName = rapid.SampledFrom([]string{`"x"`, `"PSA_IOT_PROFILE_1"`, `"http://arm.com/psa/2.0.0"`, `5`, `true`, `[]`, `{}`}).Draw(t, "emptyname.val")
+		}
 		if c.Format != "json" && rapid.IntRange(0, 3).Draw(t, "otherbody") == 0 {
 			oq := P1
 			if q == P1 {
@@ -880,7 +895,18 @@ func TestC07_Dispatch(t *testing.T) {
 				}
 			}
 		}
-		if c.Format == "json" && rapid.IntRange(0, 7).Draw(t, "twoprofiles") == 0 {
+		if rapid.IntRange(0, 19).Draw(t, "emptybody") == 0 {
+			// the boundary token: no claim at all (optionally still with an
+			// unknown entry / null-valued profile member)
+			c.Body = MClaims{Prof: P1, CompsNil: true}
+			c.Other, c.ExtTS, c.Dup2 = nil, nil, ""
+			c.S1, c.S2, c.SX = slotVal{Kind: "absent"}, slotVal{Kind: "absent"}, slotVal{Kind: "absent"}
+			if !genBool.Draw(t, "emptybody.extras") {
+				c.Extra, c.EmptyName = 0, ""
+			}
+			c.Empty = true
+		}
+		if !c.Empty && c.Format == "json" && rapid.IntRange(0, 7).Draw(t, "twoprofiles") == 0 {
 			// two DIFFERENT registered profiles declared at once, each under
 			// its own member: ambiguous, whatever implements the two (the
 			// two derived profiles share one Go implementation type)
@@ -912,7 +938,7 @@ func TestC07_Dispatch(t *testing.T) {
 				}
 			}
 		}
-		if c.Format == "json" && natural && q == P2 && c.S2.Kind == "name" && rapid.IntRange(0, 3).Draw(t, "dup2") == 0 {
+		if !c.Empty && c.Format == "json" && natural && q == P2 && c.S2.Kind == "name" && rapid.IntRange(0, 3).Draw(t, "dup2") == 0 {
 			// both names must be registered profiles carried by eat-profile
 			pool := []string{P2Name}
 			for _, i := range c.Reg {
